@@ -110,6 +110,9 @@ SPECS = {
     # ... a disjunction object whose FIRST side (over a third, never selected variable) is false everywhere: every row
     # comes from its second side, under entity(y) and under set_of([y, w])
     "ce_y": "special", "ce_yw": "special",
+    # ... a conjunction object whose two sides are independent (x only / y only), as the condition of one query and as the
+    # first side of a disjunction in another
+    "ca_and": "special", "ca_or": "special",
     # pool J: variables whose DOMAIN is a sub-query: two variables over one sub-query object; a sub-query with user code
     # in it (a fault while the domain is being read); the(...) with no / with two solutions as the domain (the evaluation
     # raises - every time)
@@ -128,7 +131,7 @@ POOLS = {
     "E": ("nd_k", "nd_join", "nd_rule", "nd_o"),
     "F": ("sh_cond", "sh_val", "sh_sel", "sh_valne"),
     "G": ("sq_part", "sq_nested", "cc_alone", "cc_or", "cc_and"),
-    "I": ("cd_x", "cd_xy", "sd_x", "sd_xz", "ce_y", "ce_yw"),
+    "I": ("cd_x", "cd_xy", "sd_x", "sd_xz", "ce_y", "ce_yw", "ca_and", "ca_or"),
     "H": ("cat_all", "cat_in", "cat_has", "cat_flat"),
     "J": ("ds_a", "ds_b", "ds_pred", "ds_none", "ds_two"),
 }
@@ -142,7 +145,7 @@ def alphabet(pool):
             continue
         ops += [("F", name), ("T1", name), ("K1", name)]
         if name in ("join", "union", "and_unions", "dupjoin", "rule", "iter", "indep", "indep_pred", "nd_join", "nd_rule",
-                    "rule_late", "cd_xy", "sd_xz", "ce_yw"):
+                    "rule_late", "cd_xy", "sd_xz", "ce_yw", "ca_and", "ca_or"):
             ops.append(("T2", name))
         if name in ("fl_pe", "fl_all"):
             ops += [("T2", name), ("T3", name), ("T5", name)]
@@ -200,7 +203,11 @@ class Pool:
                 ce = or_(xe.p == inst.v(7), ye.p == we.q)
                 self.q["ce_y"] = an(entity(ye, ce))
                 self.q["ce_yw"] = an(set_of([ye, we], ce))
-            self.cd_sel = {"cd_xy": (xi_, yi_), "sd_xz": (x3, z3), "ce_yw": (ye, we)}
+                xa, ya = let(W.Item, self.world["DA"]), let(W.Item, self.world["DB"])
+                ca = and_(xa.p >= two, ya.q == two)
+                self.q["ca_and"] = an(set_of([xa, ya], ca))
+                self.q["ca_or"] = an(set_of([xa, ya], or_(ca, ya.p == three)))
+            self.cd_sel = {"cd_xy": (xi_, yi_), "sd_xz": (x3, z3), "ce_yw": (ye, we), "ca_and": (xa, ya), "ca_or": (xa, ya)}
         if pool == "J":
             one, two = inst.v(1), inst.v(2)
             with symbolic_mode():
@@ -325,7 +332,7 @@ class Pool:
             return [tuple(Q.norm(r[s]) for s in self.sh_sel) for r in rows]
         if name == "cc_and":
             return [tuple(Q.norm(r[s]) for s in self.cc_sel) for r in rows]
-        if name in ("cd_xy", "sd_xz", "ce_yw"):
+        if name in ("cd_xy", "sd_xz", "ce_yw", "ca_and", "ca_or"):
             return [tuple(Q.norm(r[s]) for s in self.cd_sel[name]) for r in rows]
         if name in ("cat_has", "cat_flat"):
             return [tuple(Q.norm(r[s]) for s in self.cat_sel[name]) for r in rows]
@@ -407,7 +414,7 @@ def same(name, got, exp):
             or (isinstance(exp, tuple) and exp and exp[0] == "value"):
         return got == exp
     spec = SPECS[name]
-    if name in ("cc_and", "cd_xy", "sd_xz", "cd_x", "sd_x", "ce_y", "ce_yw"):
+    if name in ("cc_and", "cd_xy", "sd_xz", "cd_x", "sd_x", "ce_y", "ce_yw", "ca_and", "ca_or"):
         return set(got) == set(exp)
     if name.startswith(("sq_", "cc_")):
         # pool G: the statement promises the same result SET; with a condition object shared by several queries the order in
@@ -473,8 +480,10 @@ def describe(case, inst):
             lines.append(f"{name}: " + Q.up_query(spec, inst))
         elif name == "iter":
             lines.append("iter: xi = let(Item, iter(DA)); q = an(entity(xi, xi.p >= 2))")
-        elif name in ("cd_x", "cd_xy", "sd_x", "sd_xz", "ce_y", "ce_yw"):
+        elif name in ("cd_x", "cd_xy", "sd_x", "sd_xz", "ce_y", "ce_yw", "ca_and", "ca_or"):
             lines.append({
+                "ca_and": "xa = let(Item, DA); ya = let(Item, DB); ca = and_(xa.p >= 2, ya.q == 2)   # ONE conjunction object, independent sides\nca_and: an(set_of([xa, ya], ca))",
+                "ca_or": "ca_or: an(set_of([xa, ya], or_(ca, ya.p == 3)))",
                 "ce_y": "xe = let(Item, DA); ye = let(Item, DB); we = let(Item, DB); ce = or_(xe.p == 7, ye.p == we.q)   # ONE condition object\nce_y: an(entity(ye, ce))",
                 "ce_yw": "ce_yw: an(set_of([ye, we], ce))",
                 "cd_x": "x = let(Item, DA); y = let(Item, DB); cd = or_(x.p == y.q, x.p == 3)   # ONE condition object\ncd_x: an(entity(x, cd))",
